@@ -80,7 +80,7 @@ class RExec(EffExec):
         if meth.startswith("with_") and "Options" in func and t.a["target"] is not None and len(t.a["args"]) == 2:
             v = self.operand(stk, fr, t.a["args"][0])
             if isinstance(v, Sym):
-                self.add_effect(stk, {"kind": "call", "func": re.sub(r"\s+", " ", func)[:140], "result": v, "args": [v]})
+                self.add_effect(stk, {"kind": "call", "func": re.sub(r"\s+", " ", func)[:140], "result": v, "args": [v, self.operand(stk, fr, t.a["args"][1])]})
                 self.write_place(stk, fr, t.a["dest"], v)
                 fr.bb = t.a["target"]
                 return None
@@ -125,6 +125,22 @@ class RExec(EffExec):
             if isinstance(v, Sym):
                 return v
         return EffExec.ref_place(self, stack, frame, place)
+
+    def _write_into(self, root, proj, val):
+        if proj and proj[0][0] == "downcast" and isinstance(root, Enum) and len(proj) >= 2 and proj[1][0] == "field":
+            idx = self.variant_index(root.tname, proj[0][1])
+            old = root.variants.get(idx)
+            if isinstance(old, Lazy):
+                k = proj[1][1]
+                new = Lazy(old.tag)
+                for kk, vv in old.items():
+                    dict.__setitem__(new, kk, vv)
+                cur = old[k] if (k in old or len(proj) > 2) else None
+                dict.__setitem__(new, k, self._write_into(cur, proj[2:], val))
+                vs = dict(root.variants)
+                vs[idx] = new
+                return Enum(root.tname, root.discr, vs)
+        return EffExec._write_into(self, root, proj, val)
 
     def _project(self, stack, v, proj):
         proj = list(proj)
